@@ -34,6 +34,9 @@ from .. import gen, leanio, seams
 PROPERTY = "C15"
 LEAN_MODULE = "DPL.Properties.C15"
 TRUSTED = [
+    "static tie (shared with C14, harness/translate/rngsites.py): that the values handed to the joblib-delayed tasks are "
+    "integers drawn before dispatch is read off the current AST on every run (obligation external_passes) — trusted there: "
+    "the translator's intra-procedural origin tracking and its name-based recognition of generator objects",
     "modelled, not verified: numpy's RandomState(seed) is a deterministic function of the seed and streams for "
     "different seeds differ (MT19937); pickling a RandomState copies its state",
     "runtime facts observed, not proved: the thread/process interleavings joblib actually produces, that joblib returns "
@@ -1493,6 +1496,19 @@ def check_subset_sweep(ctx, n_pairs, lean_lines, lean_expect):
 
 
 # ------------------------------------------------------------------ the check
+
+def generate(ctx):
+    """translator tie (shared with C14): the table of `random_state` hand-overs is re-read from /repo's AST on every run;
+    `DPL.Gen.C14.external_passes` proves that what reaches the joblib-delayed tasks and sklearn's `_make_estimator` is exactly
+    the hand table `RngSites.externalPasses`, about which C15.lean proves `parallel_tasks_get_seeds`"""
+    from ..translate import rngsites
+    from ..shim import REPO
+    try:
+        rngsites.generate(REPO, leanio.LEAN)
+    except rngsites.TranslatorError as e:
+        return {"unavailable": [f"C14Sites (hand-overs to parallel tasks): {e}"]}
+    return {"build": ["DPL.Generated.C14Sites"], "obligations": 1}
+
 
 def check(ctx):
     t_phase = [time.time()]
